@@ -12,10 +12,11 @@ encoding (`Spec.SpecEnc`: the relation of C02, written independently of the crat
 schema.  With C02's `decode_complete` the generic decoder therefore reads them back as exactly one datum, leaving
 exactly what follows (`ser_decodes_as_one_datum`).
 
-Outside the statement (and covered by the correspondence run and the oracle only): strings written to a `uuid` schema,
-byte strings written to `uuid` / `big-decimal` / `duration` schemas, unions other than `Option`-shaped ones, `u64` and
-128-bit integers, flattened structs; that the value read back is the one the Rust value converts to; the schema-aware
-deserializer.
+Logical types are inside the statement in the form their Rust types hand them over (`SerOk`): a uuid as its 16 bytes or
+its canonical text, a duration as its 12 bytes, a big-decimal as its serialized form, decimals as any byte string of the
+right size.  Outside the statement (and covered by the correspondence run and the oracle only): unions other than
+`Option`-shaped ones, `u64` and 128-bit integers, flattened structs; that the value read back is the one the Rust value
+converts to; the schema-aware deserializer.
 -/
 namespace Avro.C16
 open Avro Avro.Spec
